@@ -275,6 +275,11 @@ theorem step_emptySq {s s' : St} {r : String} (i : Nat) (h : Inv s) (hs : stepSi
   simp only [stepSimple] at hs
   split at hs <;> core_branch h hs
 
+theorem step_boolSq {s s' : St} {r : String} (i : Nat) (h : Inv s) (hs : stepSimple s (.boolSq i) = some (s', r)) :
+    Good0 s s' := by
+  simp only [stepSimple] at hs
+  split at hs <;> core_branch h hs
+
 theorem step_misc {s s' : St} {r : String} (h : Inv s) :
     (∀ fid, stepSimple s (.liveq fid) = some (s', r) → Good0 s s') ∧
     (stepSimple s .mark = some (s', r) → Good0 s s') ∧
